@@ -434,6 +434,9 @@ pub fn apply(w: &World, st: &mut St, op: Op) -> bool {
             }
             let c = &w.certs[k];
             let r = match c.script {
+                // 27 carries a script credential but runs no script: a caller may still offer a Plutus
+                // witness; the builder has to refuse it (and the plain add then succeeds)
+                None if k == 27 => st.certs.add_with_plutus_witness(&c.cert, &plutus_witness(w, 1, 0, RedeemerTag::new_cert(), 200 + k as u64, None)).or_else(|_| st.certs.add(&c.cert)),
                 None => st.certs.add(&c.cert),
                 Some(s) => {
                     // script credentials of the certificate alphabet are sh(0..2): witness with a
@@ -1091,13 +1094,13 @@ pub fn ops_for(prop: &str) -> Vec<Op> {
         ],
         "C18" => vec![
             Op::In(0, 0), Op::In(2, 0), Op::In(1, 0), Op::In(5, 0), Op::In(13, 0), Op::In(12, 0), Op::In(6, 0), Op::In(6, 1), Op::In(10, 0), Op::In(10, 2), Op::In(16, 3), Op::In(16, 1), Op::In(7, 0), Op::In(7, 1), Op::In(11, 0), Op::In(8, 0), Op::In(8, 2), Op::In(14, 0), Op::In(17, 0), Op::In(17, 1),
-            Op::Out(0), Op::Coll(1), Op::Coll(0), Op::Cert(5), Op::Cert(7), Op::Cert(8), Op::Cert(6), Op::Cert(13), Op::Cert(25),
+            Op::Out(0), Op::Coll(1), Op::Coll(0), Op::Cert(5), Op::Cert(7), Op::Cert(8), Op::Cert(6), Op::Cert(13), Op::Cert(25), Op::Cert(27),
             Op::Wd(0), Op::Wd(1), Op::Wd(3), Op::Vote(0), Op::Vote(1), Op::Vote(2), Op::Vote(3), Op::Vote(4),
             Op::Mint(0), Op::Mint(2), Op::ReqSigner(3), Op::ReqSigner(0), Op::RefIn(0), Op::RefIn(1), Op::RefIn(2), Op::ExtraDatum(0), Op::ExtraDatum(1), Op::ExtraDatum(3), Op::Meta,
         ],
         "C09" | "C10" => vec![
             Op::In(0, 0), Op::In(7, 0), Op::In(7, 1), Op::In(8, 0), Op::In(11, 0), Op::In(6, 0), Op::In(2, 0), Op::In(14, 0), Op::In(14, 2), Op::In(15, 0), Op::In(15, 1), Op::In(8, 3),
-            Op::Mint(0), Op::Mint(5), Op::Mint(2), Op::Mint(4), Op::Cert(25), Op::Cert(5), Op::Cert(26), Op::Cert(16), Op::Wd(0), Op::Wd(1), Op::Wd(3), Op::Wd(5), Op::Vote(1), Op::Vote(3), Op::Vote(4), Op::Vote(5),
+            Op::Mint(0), Op::Mint(5), Op::Mint(2), Op::Mint(4), Op::Cert(25), Op::Cert(5), Op::Cert(26), Op::Cert(16), Op::Cert(27), Op::Wd(0), Op::Wd(1), Op::Wd(3), Op::Wd(5), Op::Vote(1), Op::Vote(3), Op::Vote(4), Op::Vote(5),
             Op::Proposal(0), Op::Proposal(3), Op::Proposal(4), Op::MetaEmpty(0), Op::MetaEmpty(1),
             Op::ExtraDatum(0), Op::ExtraDatum(1), Op::ExtraDatum(3), Op::Meta, Op::Out(0),
         ],
